@@ -22,10 +22,13 @@ theorem set_number_gates :
 /-- SetBool accepts exactly true, false and null -/
 theorem set_bool_gate : swSetBool = [[[cTagBoolTrue, cTagBoolFalse, cTagNull]]] := by decide
 
-/-- SetNull: one-word scalars; two-word scalars; objects and arrays (no root, no end tags); error otherwise -/
+/-- SetNull: one-word scalars; two-word scalars; objects, arrays **and roots**; error otherwise.
+    The documentation of SetNull lists Bool, String, numbers, Objects and Arrays only; that root entries are
+    accepted too is the known finding D10 of C13 (upstream's own test TestIter_SetNull_ObjArr/3 relies on it,
+    so it is recorded, not repaired).  The theorem pins the list as it is, so any further change is noticed. -/
 theorem set_null_gates :
     swSetNull = [[[cTagBoolTrue, cTagBoolFalse, cTagNull], [cTagString, cTagFloat, cTagInteger, cTagUint],
-                  [cTagObjectStart, cTagArrayStart], [256]]] := by decide
+                  [cTagObjectStart, cTagArrayStart, cTagRoot], [256]]] := by decide
 
 /-- calcNext: two-word values skip one entry; containers and roots skip to their end offset -/
 theorem calc_next_cases :
